@@ -156,6 +156,9 @@ def s_variation(env):
         ("validA", "LocalBioFilter.valid", (fA, env["probe"]), {}),
         ("validB", "LocalBioFilter.valid", (fB, env["probe"]), {}),
         ("validA-all", "LocalBioFilter.valid", (fA, env["probe"]), {"only_last": False}),
+        ("validW-before", "LocalBioFilter.valid", (env["filter_w"], "AAAT" + env["probe"]), {"only_last": False}),
+        ("findW", "find_vertices", (k, env["filter_w"]), {}),
+        ("validW-after", "LocalBioFilter.valid", (env["filter_w"], "AAAT" + env["probe"]), {"only_last": False}),
         ("RECONF-FILTER-A", None, (), {}),
         ("findA-reconf", "find_vertices", (k, fA), {}),
         ("validA-reconf", "LocalBioFilter.valid", (fA, env["probe"]), {}),
